@@ -4,3 +4,9 @@ package piece
 
 // VSetCount sets the number of pieces holding data (so that Bytes() is arbitrary).
 func (ps *Pieces) VSetCount(n int) { ps.count = n }
+
+// VData returns the buffer of a piece (nil if it holds no data).
+func (ps *Pieces) VData(index uint32) []byte { return ps.pieces[index].data }
+
+// VHasBlock reports whether block c of piece index is present.
+func (ps *Pieces) VHasBlock(index uint32, c int) bool { return ps.pieces[index].bitmap.Get(c) }
